@@ -134,3 +134,51 @@ def angle(u, v):
     u = np.asarray(u, float)
     v = np.asarray(v, float)
     return math.atan2(float(np.linalg.norm(np.cross(u, v))), float(u @ v))
+
+
+def write_type3(src, dst, which=lambda target: True):
+    """Write to `dst` a kernel holding the same trajectories as the type-2 kernel `src`, in which the segments
+    whose target satisfies `which` are re-encoded as SPK data type 3 (NAIF SPK required reading, "Type 3:
+    Chebyshev (position and velocity)"): each record [MID, RADIUS, X, Y, Z coefficients] gets three more sets of
+    coefficients, those of the velocity in km/s - here the exact derivative of the position polynomials,
+    d/dt sum c_k T_k(s) with s = (t - MID)/RADIUS, i.e. chebder(c)/RADIUS - so that both encodings describe the
+    same states to rounding.  The other segments are copied as they are.  Only jplephem's DAF layer is used."""
+    from jplephem.daf import DAF
+    from numpy.polynomial import chebyshev
+
+    with open(src, "rb") as fs:
+        sdaf = DAF(fs)
+        first = sdaf.read_record(1)
+        arrays = []
+        for name, values in sdaf.summaries():
+            start_s, end_s, target, center, frame, dtype, start_i, end_i = values
+            words = np.array(sdaf.read_array(start_i, end_i), float)
+            if dtype == 2 and which(target):
+                init, intlen, rsize, n = words[-4:]
+                rsize, n = int(rsize), int(n)
+                ncoef = (rsize - 2) // 3
+                rec = words[:-4].reshape(n, rsize)
+                out = np.zeros((n, 2 + 6 * ncoef))
+                out[:, :rsize] = rec
+                for k in range(n):
+                    radius = rec[k, 1]
+                    for ax in range(3):
+                        c = rec[k, 2 + ax * ncoef:2 + (ax + 1) * ncoef]
+                        d = chebyshev.chebder(c) / radius
+                        out[k, 2 + (3 + ax) * ncoef:2 + (3 + ax) * ncoef + len(d)] = d
+                words = np.concatenate([out.ravel(), [init, intlen, 2 + 6 * ncoef, n]])
+                dtype = 3
+            arrays.append((name, (start_s, end_s, target, center, frame, dtype, 0, 0), words))
+    with open(dst, "w+b") as fd:
+        fd.write(first + b"\0" * 2048)
+        fd.flush()
+        ddaf = DAF(fd)
+        ddaf.fward = ddaf.bward = 2
+        ddaf.free = 3 * 128 + 1
+        ddaf.write_file_record()
+        ddaf.write_record(2, ddaf.summary_control_struct.pack(0, 0, 0).ljust(1024, b"\0"))
+        ddaf.write_record(3, b" " * 1024)
+        for name, values, words in arrays:
+            ddaf.add_array(name, values, words)
+        fd.flush()
+    return dst
